@@ -88,6 +88,18 @@ class C15Gen:
             # built from the accepted registrations has never heard of that call)
             client = "inspector"
             op = self.qop(self.probe_after_rejection(sim.ops[-1]["reg"], model))
+        elif sim.ops and sim.ops[-1].get("reg") and sim.log[-1][3] == "ok" and self.asked and rng.random() < 0.35:
+            # right after an ACCEPTED registration: a question that was already asked before it and
+            # mentions one of its names (or its quantity type's categories) is asked again
+            reg = sim.ops[-1]["reg"]
+            kw = reg.get("kw") or {}
+            t = reg.get("type") or kw.get("quantity_type")
+            names = {x for x in (reg.get("unit"), reg.get("category"), t) if isinstance(x, str)}
+            names |= {c for c, ent in model.cats.items() if ent.get("type") == t}
+            names |= {u for u, ent in model.units.items() if ent.get("type") == t}
+            related = [e for e in self.asked[-25:] if Q.names(e) & names]
+            client = "inspector"
+            op = self.qop(rng.choice(related or self.asked[-8:]))
         elif getattr(self, "rebuild", 0) > 0 and rng.random() < 0.6:
             self.rebuild -= 1
             client = "registrar"
@@ -551,7 +563,9 @@ def _struct(db):
 
 
 def sweep_digest(track):
-    return digest([track.snap(), _struct(_db())])
+    # the registry's own tables only: taking it asks the database nothing (the cold replica must
+    # stay cold: a snapshot through the public getters is itself a history of queries)
+    return digest(_struct(_db()))
 
 
 class OtherDbPure(Mon.Monitor):
@@ -639,7 +653,7 @@ class C15:
         cfg["constructive"] = rng.choice([0.3, 0.6, 0.8])
         cfg["cold_checks"] = 12 if tier == "quick" else 10 ** 6
         cfg["repeat_rate"] = rng.choice([0.05, 0.15, 0.3])
-        cfg["other_db_rate"] = rng.choice([0, 0.1, 0.1, 0.3])
+        cfg["other_db_rate"] = rng.choice([0, 0.1, 0.2, 0.4])
         cfg["sweep_rate"] = rng.choice([0, 0, 0, 0.1]) if tier == "quick" else rng.choice([0, 0.1, 0.3])
         return cfg
 
@@ -861,7 +875,8 @@ def child_reg_cold(profile, cfg, ops, cold_indices, known, only=None, sweep_prob
             if sw is not None:
                 out["sweep"][op["i"]].update({"post_digest": sweep_digest(track), "post": cold_answers(sw)})
             e = sim.log[-1]
-            out["reg"][op["i"]] = [e[3], e[4], digest(track.snap())]
+            # REG-A (the parent of the cold children) never asks the database anything
+            out["reg"][op["i"]] = [e[3], e[4], digest(track.snap()) if only is None else None]
         elif op["i"] in cold_indices:
             out["cold"][op["i"]] = run_in_child(_cold_one, (cfg, op, known), timeout=RUN_TIMEOUT)
     return out
